@@ -170,6 +170,11 @@ def _lit(kind, v, rng, rawdecl):
     if kind == "uv": return "UV<%s>({%s})" % (T, body)
     if kind == "tup": return "nmtools_tuple{%s}" % ",".join("(%s)%d" % (T, x) for x in v)
     if kind == "utup": return "nm::utl::tuple{%s}" % ",".join("(%s)%d" % (T, x) for x in v)    # the library's own tuple (STL-free builds)
+    if kind == "bsv": return "BSV<%s,8>({%s})" % (T, body)                         # boost::container::static_vector, partially filled
+    if kind == "bsvt": return "BSV<%s,%d>({%s})" % (T, max(len(v), 1), body)       # ... filled to its capacity
+    if kind == "barr": return "boost::array<%s,%d>{{%s}}" % (T, len(v), body)
+    if kind == "bsm": return "BSM<%s>({%s})" % (T, body)                           # boost::container::small_vector<T,4>
+    if kind == "bvec": return "BVEC<%s>({%s})" % (T, body)                         # boost::container::vector
     if kind == "ct": return "nmtools_tuple{%s}" % ",".join(_ct(x) for x in v)
     if kind == "cl":
         if signed: return None
@@ -185,18 +190,24 @@ def _scalar(kind, x):
     return _ct(x) if kind == "ct" else str(x)
 
 
-def _rows(fn, vals, rng):
-    """[(row name, [c++ lines])] for one case"""
+BOOST_KINDS = ["bsv", "bsvt", "barr", "bsm", "bvec"]
+
+
+def _rows(fn, vals, rng, boost=False):
+    """[(row name, [c++ lines])] for one case; boost=True: the rows of the Boost-enabled translation unit (NMTOOLS_ENABLE_BOOST)"""
     rows = []
     nlists = sum(1 for v in vals if isinstance(v, list))
-    combos = [(k,) * nlists for k in LIST_KINDS]
-    if nlists == 2:
+    combos = [(k,) * nlists for k in (["vec"] + BOOST_KINDS if boost else LIST_KINDS)]
+    if boost:
+        if nlists == 0: return []
+        if nlists == 2: combos += [("bsv", "vec"), ("vec", "bsv"), ("bsv", "barr"), ("bsm", "bsv")]
+    elif nlists == 2:
         # mixed pairs: the result-type inference of the library depends on the PAIR of kinds (run-time x constant, bounded x
         # constant, clipped x constant, ...) so every pairing of a "static knowledge" family with another is instantiated
         combos += [("vec", "arr"), ("arr", "ct"), ("ct", "vec"), ("arr", "cl"), ("cl", "vec"), ("sv", "tup"),
                    ("sv", "ct"), ("ct", "sv"), ("cl", "ct"), ("ct", "cl"), ("uv", "ct"), ("tup", "ct"), ("ct", "arr"), ("sv", "arr"),
                    ("svt", "ct"), ("ct", "svt"), ("svt", "arr"), ("svt", "cl"), ("utup", "vec"), ("arr", "utup"), ("vec", "ct"), ("uv", "cl")]
-    if nlists == 0:
+    if nlists == 0 and not boost:
         combos = [("rt",), ("ct",)]
     for combo in combos:
         raw = []; args = []; ok = True; li = 0
@@ -286,12 +297,27 @@ def gen_for(funcs, nsets, rng, tier):
     return ["g I:%d S:%s %s" % (i, fn, " ".join(_fmt(v) for v in vals)) for i, (fn, vals, rows) in enumerate(cases)]
 
 
+BOOST_PRELUDE = '''#define NMTOOLS_ENABLE_BOOST
+#include <boost/array.hpp>
+#include <boost/container/static_vector.hpp>
+#include <boost/container/small_vector.hpp>
+#include <boost/container/vector.hpp>
+'''
+BOOST_HELPERS = '''#include "nmtools/array/impl/boost.hpp"
+template <typename T, size_t N> static boost::container::static_vector<T,N> BSV(std::initializer_list<T> l){ boost::container::static_vector<T,N> a; for (auto x: l) a.push_back(x); return a; }
+template <typename T> static boost::container::small_vector<T,4> BSM(std::initializer_list<T> l){ boost::container::small_vector<T,4> a; for (auto x: l) a.push_back(x); return a; }
+template <typename T> static boost::container::vector<T> BVEC(std::initializer_list<T> l){ boost::container::vector<T> a; for (auto x: l) a.push_back(x); return a; }
+'''
+
+
 def _write_part(cases, part, rejected):
-    """source text of part `part`; returns (text, {line number: (case index, row name)})"""
-    lines = PRELUDE.split("\n"); where = {}
-    ids = [i for i in range(len(cases)) if i % NPART == part]
+    """source text of part `part` ("b": the Boost-enabled unit, all cases); returns (text, {line number: (case index, row name)})"""
+    boost = part == "b"
+    lines = ((BOOST_PRELUDE + PRELUDE + BOOST_HELPERS) if boost else PRELUDE).split("\n"); where = {}
+    ids = [i for i in range(len(cases)) if boost or i % NPART == part]
     for i in ids:
         fn, vals, rows = cases[i]
+        if boost: rows = _state["brows"][i]
         lines.append("static std::string case_%d() { std::string s;" % i)
         for name, code in rows:
             if (i, name) in rejected:
@@ -332,10 +358,12 @@ def drivers(tier):
         gen_cases(random.Random(int(os.environ.get("VERIF_SEED", "0") or 0)), tier); cases = _state["cases"]
     os.makedirs(GEN_DIR, exist_ok=True)
     specs = []; rejected = set(); _state["rejected"] = rejected
-    for part in range(NPART):
+    rng_b = random.Random(12345)
+    _state["brows"] = [_rows(fn, vals, rng_b, boost=True) for fn, vals, rows in cases]
+    for part in list(range(NPART)) + ["b"]:
         for attempt in range(6):
             text, where = _write_part(cases, part, rejected)
-            path = os.path.join(GEN_DIR, "c09_p%d_%s.cpp" % (part, hashlib.sha256(text.encode()).hexdigest()[:12]))
+            path = os.path.join(GEN_DIR, "c09_p%s_%s.cpp" % (part, hashlib.sha256(text.encode()).hexdigest()[:12]))
             open(path, "w").write(text)
             spec = (path, "debug", ("-O0",))
             binp, log = core.build_driver(*spec)
